@@ -476,7 +476,7 @@ class Gen:
         def make():
             t = self.chance(0.6) if timed is None else timed
             n = self.d(st.integers(3, 4))
-            o = {"id": self.fresh(), "type": self.typename("TimeTreeModel" if t else "UnRootedTreeModel")}
+            o = {"id": self.fresh(), "type": self.typename(("FlexibleTimeTreeModel" if self.chance(0.35) else "TimeTreeModel") if t else "UnRootedTreeModel")}
             tx = self.taxa(path + ["taxa"], n, t)
             names = tx["taxa"] if isinstance(tx, dict) else None
             node = [x for x in self.nodes if x.id == (tx if isinstance(tx, str) else tx["id"])][0]
@@ -705,10 +705,27 @@ def inject(g, spec, kind):
             ps = unreferenced_first(ps, 1)
             a, b = ps[0] if d(st.booleans()) else d(st.sampled_from(ps))
             rename(b, a)
-        else:
+        elif d(st.booleans()):
             # wrap: a new view whose inline parameter carries the view's own id
             id_ = g.fresh()
             spec.append({"id": id_, "type": "ViewParameter", "indices": "0:1", "parameter": {"id": id_, "type": "Parameter", "tensor": [0.5, 1.5]}})
+        else:
+            # a holder that enters the id table by itself (between its taxa and its heights): each of its
+            # inline children in turn carries the holder's id
+            x = g.fresh(True)
+            names = [g.fresh(True), g.fresh(True), g.fresh(True)]
+            ids = {"taxa": g.fresh(), "heights": g.fresh()}
+            where = d(st.sampled_from(["taxa", "taxon", "heights"]))
+            if where == "taxon":
+                names[d(st.integers(0, 2))] = x
+            else:
+                ids[where] = x
+            spec.append({
+                "id": x, "type": d(st.sampled_from(["FlexibleTimeTreeModel", "TimeTreeModel", "torchtree.evolution.tree_model_flexible.FlexibleTimeTreeModel"])),
+                "newick": "((%s,%s),%s);" % tuple(names),
+                "taxa": {"id": ids["taxa"], "type": "Taxa", "taxa": [{"id": n, "type": "Taxon", "attributes": {"date": 0.0}} for n in names]},
+                "internal_heights": {"id": ids["heights"], "type": "Parameter", "tensor": [1.0, 2.5]},
+            })
         return kind
     if kind == "dup_distant":
         ps = any_pairs(lambda p, q: p[0] == q[0] and not _is_prefix(p, q) and not _is_prefix(q, p) and p[:-1] != q[:-1] and p < q)
@@ -803,9 +820,13 @@ def decorate(g, spec, live_ids, ghosts=False):
     leaves = [x.id for x in g.nodes if x.kind == "vec" and x.cls == "Parameter" and getattr(x, "updatable", False)] if ghosts else None
     dicts, lists = [], []
 
+    objs = []  # live objects: may carry an explicit "ignore": <false>, which keeps them
+
     def walk(o, path):
         if isinstance(o, dict):
             dicts.append(path)
+            if "type" in o and "ignore" not in o:
+                objs.append(path)
             for k, v in o.items():
                 walk(v, path + [k])
         elif isinstance(o, list):
@@ -820,8 +841,11 @@ def decorate(g, spec, live_ids, ghosts=False):
     # dict decorations first (do not move anything), list insertions afterwards from the back
     ins = []
     for _ in range(n):
-        r = d(st.integers(0, 2))
-        if r == 0 and dicts:
+        r = d(st.integers(0, 3))
+        if r == 3 and objs:
+            jget(spec, d(st.sampled_from(objs)))["ignore"] = d(st.sampled_from([False, False, 0, None]))
+            done += 1
+        elif r == 0 and dicts:
             o = jget(spec, d(st.sampled_from(dicts)))
             key = d(st.sampled_from(["_comment", "_", "_x", "_id", "_ignore", "_parameters"]))
             o[key] = copy.deepcopy(d(st.sampled_from(COMMENTS)))
